@@ -184,20 +184,9 @@ func pivot2Run(x *run, pw *pivot2World, scheme string, seed int64) {
 		var err error
 		select {
 		case err = <-done:
-		case <-time.After(20 * time.Minute):
-			// every run has a peer that answers honestly: not finishing is the syncer's failure
-			x.mu.Lock()
-			x.violate("snap sync stalled: no completion within 20 minutes although a peer able to make progress is present", tl.M{})
-			stop := x.cancel
-			x.mu.Unlock()
-			if stop != nil {
-				stop()
-			}
-			select {
-			case <-done:
-			case <-time.After(time.Minute):
-			}
-			return
+		case <-time.After(30 * time.Minute):
+			// a wall-clock limit is never a verdict: infrastructure error (exit 2)
+			tl.Fatal("sync did not finish within 30 minutes (run %v)", x.desc)
 		}
 		x.mu.Lock()
 		x.cancel = nil
